@@ -25,6 +25,18 @@ from .parameters import SSEParameters
 logger = logging.getLogger(__name__)
 
 
+class _RequestFuture(asyncio.Future):
+    """Pending-request future created by ``_send_message_via_http``.
+
+    The event stream task delivers the answer to such a request itself, at its
+    place in the event stream, and notes that here; the sender then only learns
+    that the request is over and routes nothing more for it.  (A plain future
+    put into ``_pending_requests`` by other code is just resolved, as before.)
+    """
+
+    delivered_in_stream = False
+
+
 class SSETransport(Transport):
     """
     Universal SSE transport that handles multiple response patterns.
@@ -370,15 +382,25 @@ class SSETransport(Transport):
             message_id = message_data.get("id")
             if message_id is not None:
                 message_id = str(message_id)
+                deliver_here = False
                 async with self._message_lock:
                     if message_id in self._pending_requests:
                         future = self._pending_requests.pop(message_id)
                         if not future.done():
+                            if isinstance(future, _RequestFuture):
+                                future.delivered_in_stream = deliver_here = True
                             future.set_result(message_data)
                             logger.debug(
                                 f"Resolved pending request {message_id} via SSE"
                             )
-                        return  # Don't route to incoming stream
+                        if not deliver_here:
+                            return  # Don't route to incoming stream
+                if deliver_here:
+                    # Delivered by this task, before it looks at the next event:
+                    # handing the answer to the sender task would let later
+                    # events of the stream overtake it
+                    await self._route_incoming_message(message_data)
+                    return
 
                 # The answer to a request that already got its (synthesized)
                 # terminal message: drop it, a request is answered exactly once
@@ -455,7 +477,8 @@ class SSETransport(Transport):
                 # Request - setup for response handling
                 request_id = message_id  # synthesized errors keep the id's JSON type
                 message_id = str(message_id)
-                future: asyncio.Future[Dict[str, Any]] = asyncio.Future()
+                request = _RequestFuture()
+                future: asyncio.Future[Dict[str, Any]] = request
                 async with self._message_lock:
                     self._pending_requests[message_id] = future
                     self._abandoned_requests.discard(message_id)  # id in use again
@@ -469,7 +492,12 @@ class SSETransport(Transport):
 
                     logger.debug(f"HTTP response status: {response.status_code}")
 
-                    if response.status_code == 200:
+                    if request.delivered_in_stream:
+                        # Answered on the event stream while the POST was in
+                        # flight, and delivered from there: nothing more to route
+                        logger.debug(f"Request {message_id} already answered via SSE")
+
+                    elif response.status_code == 200:
                         # Immediate HTTP response
                         response_data = response.json()
                         logger.debug(f"Got immediate HTTP response for {message_id}")
@@ -495,9 +523,13 @@ class SSETransport(Transport):
                                 future, timeout=self.timeout
                             )
                             logger.debug(f"Got async SSE response for {message_id}")
-                            # Route to incoming stream
-                            await self._route_incoming_message(response_message)
+                            # Route to incoming stream, unless the event stream
+                            # task has done so already (in stream order)
+                            if not request.delivered_in_stream:
+                                await self._route_incoming_message(response_message)
                         except asyncio.TimeoutError:
+                            if request.delivered_in_stream:
+                                return  # answered at the very moment the timer fired
                             logger.error(
                                 f"Timeout waiting for SSE response to message {message_id}"
                             )
@@ -544,6 +576,8 @@ class SSETransport(Transport):
                             await self._route_incoming_message(error_response)
 
                 except Exception as e:
+                    if request.delivered_in_stream:
+                        return  # answered (and delivered) before the POST failed
                     logger.error(f"Error sending request: {e}")
                     # Send error response
                     error_response = {
